@@ -59,8 +59,12 @@ func TypeSwitches(info *types.Info, body ast.Node, nested bool) []*SwitchInfo {
 				}
 				t := info.TypeOf(e)
 				if t != nil {
-					si.Cases[TypeName(t)] = true
-					si.Clauses[TypeName(t)] = cc
+					k := t.String()
+					if NamedOf(t) != nil {
+						k = TypeName(t)
+					}
+					si.Cases[k] = true
+					si.Clauses[k] = cc
 				}
 			}
 		}
